@@ -114,6 +114,7 @@ impl Prop for C05 {
 			big_blobs: true,
 			min_width_one: false,
 			push_ops: true,
+			scale: 2,
 		};
 		let mut spec = container::gen_filespec(rng, &profile);
 		container::maybe_via_write_all(rng, &mut spec);
@@ -128,6 +129,7 @@ impl Prop for C05 {
 	fn exec(&self, scn: &Scn) -> Outcome {
 		let mut out = Outcome::default();
 		let spec = &scn.spec;
+		container::count_scale(spec, &mut out);
 		let env = Env::build(&spec.schema);
 		let Some((file, model)) = write_clean(spec, "C05", &mut out) else {
 			return out;
